@@ -1,5 +1,294 @@
-namespace Sc3Verif.C15
-namespace Lift
-def run (s : String) : String := "todo:" ++ s
-end Lift
-end Sc3Verif.C15
+/-
+C15 (a) — executable model of operator lifting in sc3
+(`sc3/base/absobject.py`, `builtins.py: scbuiltin`, `functions.py`, `stream.py`,
+`seq/pattern.py`, `utils.py: list_unop/list_binop/list_narop`, `operand.py`).
+
+Scalars are *symbolic*: `Sc.app sel [a, b]` records that the numeric selector `sel` was applied
+to the evaluated operands `a`, `b` in that order.  The model therefore says WHICH selector reaches
+WHICH evaluated operands — the content of "operators lift uniformly" — and leaves the numeric
+meaning of the selector to part (b) (the kernels).
+
+Objects:
+  `sc v`        a number / symbolic scalar (no hooks)
+  `opnd v`      `Operand(v)`
+  `fn f`        any `AbstractFunction`; `f x` is its value at the argument `x`
+  `strm p s`    a `Stream` (`p = false`) or a `Pattern` (`p = true`); `s i` is the result of the
+                `i`-th `next()` (`none` = `StopStream`); streams are assumed to stay ended
+  `seq k xs`    a plain `list` / `tuple` (no hooks) or a `ChannelList` (`AbstractSequence` hooks)
+  `err e`       an exception; `err "unmodelled"` marks operand combinations outside the model
+                (e.g. a function whose value is a list)
+
+`applyUn/applyBin/applyNar` are what calling a selector (an `operator.*` function or a
+`@scbuiltin` function) on objects does: the left operand's hook, else the right operand's
+reflected hook, else the numeric function — recursively for the members of sequences.
+Recursion through nested sequences uses explicit fuel (any fuel above the nesting depth gives
+the same result).  Core Lean only.
+-/
+namespace Sc3Verif.C15.Lift
+
+inductive SeqK where
+  | list | tuple | chan
+deriving DecidableEq, Repr, Inhabited
+
+inductive Sc where
+  | atom (t : String)
+  | app (sel : String) (args : List Sc)
+deriving Inhabited
+
+inductive Obj where
+  | sc (v : Sc)
+  | opnd (v : Sc)
+  | fn (f : Sc → Sc)
+  | strm (isPat : Bool) (s : Nat → Option Sc)
+  | seq (k : SeqK) (xs : List Obj)
+  | err (e : String)
+deriving Inhabited
+
+def unmodelled : Obj := .err "unmodelled"
+
+def Obj.isSeq : Obj → Bool
+  | .seq _ _ => true
+  | _ => false
+
+def Obj.isTuple : Obj → Bool
+  | .seq .tuple _ => true
+  | _ => false
+
+/-- `type(item)` as far as `list_binop` uses it (only consulted when `item` is a sequence). -/
+def Obj.kind : Obj → SeqK
+  | .seq k _ => k
+  | _ => .list
+
+/-- `list(x)` for a tuple member (`a2 = list(a[i])`). -/
+def Obj.untuple : Obj → Obj
+  | .seq .tuple xs => .seq .list xs
+  | o => o
+
+/-- `utl.wrap_extend(lst, n)` = `lst * (n // l) + lst[:n % l]` (`[]` for an empty list). -/
+def wrapExtend {α : Type} (l : List α) (n : Nat) : List α :=
+  if l.length = 0 ∨ n = 0 then []
+  else (List.replicate (n / l.length) l).flatten ++ l.take (n % l.length)
+
+/-- `utl.list_binop(op, a, b, t)`. -/
+def listBinop (op : Obj → Obj → Obj) : Nat → Obj → Obj → SeqK → Obj
+  | 0, _, _, _ => .err "fuel"
+  | n + 1, .seq _ as, .seq _ bs, t =>
+    let as' := if as.length ≥ bs.length then as else wrapExtend as bs.length
+    let bs' := if as.length ≥ bs.length then wrapExtend bs as.length else bs
+    if as'.any Obj.isSeq || bs'.any Obj.isSeq then
+      .seq t (List.zipWith (fun x y =>        -- `for i in range(min(len(a), len(b)))`
+        listBinop op n x.untuple y.untuple (if x.isTuple || y.isTuple then .tuple else .list)) as' bs')
+    else .seq t (List.zipWith op as' bs')
+  | n + 1, .seq _ as, b, t => .seq t (as.map fun x => listBinop op n x b x.kind)
+  | n + 1, a, .seq _ bs, t => .seq t (bs.map fun y => listBinop op n a y y.kind)
+  | _ + 1, a, b, _ => op a b
+
+/-- `utl.list_unop(op, a, t)`. -/
+def listUnop (op : Obj → Obj) : Nat → Obj → SeqK → Obj
+  | 0, _, _ => .err "fuel"
+  | n + 1, .seq _ as, t =>
+    if as.any Obj.isSeq then .seq t (as.map fun x => listUnop op n x x.kind)
+    else .seq t (as.map op)
+  | _ + 1, a, _ => op a
+
+/-- `utl.list_narop(op, a, *args, t=t)`: maps over the first operand only. -/
+def listNarop (op : Obj → List Obj → Obj) (args : List Obj) : Nat → Obj → SeqK → Obj
+  | 0, _, _ => .err "fuel"
+  | n + 1, .seq _ as, t =>
+    if as.any Obj.isSeq then .seq t (as.map fun x => listNarop op args n x x.kind)
+    else .seq t (as.map fun x => op x args)
+  | _ + 1, a, _ => op a args
+
+inductive Hook where
+  | fn | strm | chan | opnd
+deriving DecidableEq, Repr
+
+/-- Which `_compose_*` hooks an object has (`hasattr(x, '_compose_binop')`). -/
+def Obj.hook? : Obj → Option Hook
+  | .fn _ => some .fn
+  | .strm _ _ => some .strm
+  | .seq .chan _ => some .chan
+  | .opnd _ => some .opnd
+  | _ => none
+
+/-- `stm.stream(obj)`: numbers become constant streams. -/
+def toStream : Obj → Option (Nat → Option Sc)
+  | .strm _ s => some s
+  | .sc v => some fun _ => some v
+  | _ => none
+
+/-- pointwise combination; ends as soon as one side ends -/
+def zipStreams (sel : String) (s t : Nat → Option Sc) : Nat → Option Sc := fun i =>
+  match s i, t i with
+  | some a, some b => some (.app sel [a, b])
+  | _, _ => none
+
+/-- The numeric function itself: both operands are plain scalars. -/
+def numeric (sel : String) : List Obj → Obj
+  | args =>
+    match args.mapM (fun o => match o with | Obj.sc v => some v | _ => none) with
+    | some vs => .sc (.app sel vs)
+    | none => match args.find? (fun o => match o with | Obj.err _ => true | _ => false) with
+      | some e => e
+      | none => unmodelled
+
+/-- A unary selector applied to an object. -/
+def applyUn (sel : String) : Nat → Obj → Obj
+  | 0, _ => .err "fuel"
+  | n + 1, a =>
+    match a with
+    | .fn f => .fn fun x => .app sel [f x]                                   -- UnopFunction
+    | .strm p s => .strm p fun i => (s i).map fun v => .app sel [v]          -- UnopStream / Punop
+    | .seq .chan _ => listUnop (applyUn sel n) n a .chan                      -- AbstractSequence
+    | .opnd v => .opnd (.app sel [v])                                         -- Operand
+    | _ => numeric sel [a]
+
+/-- `a._compose_binop(sel, b)` (`self` on the left) and `b._rcompose_binop(sel, a)`
+    (`self` on the right): `self` is the operand that has the hook. -/
+def composeBin (rec : Obj → Obj → Obj) (n : Nat) (sel : String) (selfLeft : Bool) (self other : Obj) : Obj :=
+  let ord : Sc → Sc → List Sc := fun s o => if selfLeft then [s, o] else [o, s]
+  match self with
+  | .fn f =>                                                                  -- BinopFunction
+    match other with
+    | .sc y => .fn fun x => .app sel (ord (f x) y)
+    | .fn g => .fn fun x => .app sel (ord (f x) (g x))
+    | .err e => .err e
+    | _ => unmodelled
+  | .strm p s =>                                                              -- BinopStream / Pbinop
+    match toStream other with
+    | some t => .strm p (if selfLeft then zipStreams sel s t else zipStreams sel t s)
+    | none => match other with | .err e => .err e | _ => unmodelled
+  | .seq .chan _ =>                                                           -- list_binop(…, type(self))
+    if selfLeft then listBinop rec n self other .chan else listBinop rec n other self .chan
+  | .opnd v =>                                                                -- type(self)(selector(a, b))
+    let o := match other with | .opnd w => Obj.sc w | o => o
+    match (if selfLeft then rec (.sc v) o else rec o (.sc v)) with
+    | .sc r => .opnd r
+    | .err e => .err e
+    | _ => unmodelled
+  | _ => .err "AttributeError"
+
+/-- A binary selector applied to objects: left hook, else right (reflected) hook, else numeric. -/
+def applyBin (sel : String) : Nat → Obj → Obj → Obj
+  | 0, _, _ => .err "fuel"
+  | n + 1, a, b =>
+    match a.hook? with
+    | some _ => composeBin (applyBin sel n) n sel true a b
+    | none =>
+      match b.hook? with
+      | some _ => composeBin (applyBin sel n) n sel false b a
+      | none => numeric sel [a, b]
+
+/-- `a._compose_narop(sel, *args)`; there is no reflected form. -/
+def applyNar (sel : String) : Nat → Obj → List Obj → Obj
+  | 0, _, _ => .err "fuel"
+  | n + 1, a, args =>
+    match a with
+    | .fn f =>                                                                -- NaropFunction
+      match args.mapM (fun o => match o with
+          | Obj.sc y => some (fun (_ : Sc) => y) | Obj.fn g => some g | _ => none) with
+      | some gs => .fn fun x => .app sel (f x :: gs.map (· x))
+      | none => unmodelled
+    | .strm p s =>                                                            -- NaropStream / Pnarop
+      match args.mapM toStream with
+      | some ts => .strm p fun i =>
+          match s i, ts.mapM (· i) with
+          | some v, some vs => some (.app sel (v :: vs))
+          | _, _ => none
+      | none => unmodelled
+    | .seq .chan _ => listNarop (applyNar sel n) args n a .chan
+    | .opnd v =>
+      match args.mapM (fun o => match o with | Obj.sc y => some y | _ => none) with
+      | some ys => .opnd (.app sel (v :: ys))
+      | none => unmodelled
+    | _ => numeric sel (a :: args)
+
+/-- enough fuel for every object the driver builds -/
+def fuel : Nat := 64
+
+/-! ### Python-level operator syntax, resolved with the table extracted from `absobject.py` -/
+
+/-- One row per method of `AbstractObject` (generated: `GenOps.ops`):
+    method name, hook, selector name, parameter names, defaults, what is passed on. -/
+structure OpRow where
+  method : String
+  hook : String
+  sel : String
+  params : List String
+  defaults : List String
+  passes : List String
+deriving Repr, Inhabited
+
+def findRow (ops : List OpRow) (m : String) : Option OpRow := ops.find? (·.method == m)
+
+/-- The operator whose method Python tries on the right operand of a comparison. -/
+def mirror : String → Option String
+  | "lt" => some "gt" | "gt" => some "lt" | "le" => some "ge" | "ge" => some "le"
+  | "eq" => some "eq" | "ne" => some "ne" | _ => none
+
+/-- `operator.and_` ↔ `__and__` … (the trailing underscore only avoids Python keywords) -/
+def dunderName : String → String
+  | "and_" => "and" | "or_" => "or" | "not_" => "not" | s => s
+
+/-- `a <op> b` in Python (`op` = `add`, `sub`, `lt`, …): `a.__op__(b)` when `a` has the method,
+    else `b.__rop__(a)`, else — comparisons — the mirrored method of `b`; else `TypeError`. -/
+def pyBinary (ops : List OpRow) (op0 : String) (a b : Obj) : Obj :=
+  let op := dunderName op0
+  match a.hook? with
+  | some _ =>
+    match findRow ops s!"__{op}__" with
+    | some r => composeBin (applyBin r.sel fuel) fuel r.sel true a b
+    | none => .err "TypeError"
+  | none =>
+    match b.hook? with
+    | none => numeric op0 [a, b]
+    | some _ =>
+      match findRow ops s!"__r{op}__" with
+      | some r => composeBin (applyBin r.sel fuel) fuel r.sel false b a
+      | none =>
+        match mirror op with
+        | some m =>
+          match findRow ops s!"__{m}__" with
+          | some r => composeBin (applyBin r.sel fuel) fuel r.sel true b a
+          | none => .err "TypeError"
+        | none => .err "TypeError"
+
+/-- `a.method(args…)` for a hooked object `a`: binds defaults, forwards what the method forwards. -/
+def pyMethod (ops : List OpRow) (m : String) (a : Obj) (args : List Obj) : Obj :=
+  match findRow ops m with
+  | none => .err "AttributeError"
+  | some r =>
+    if a.hook?.isNone then .err "AttributeError"
+    else if args.length > r.params.length then .err "TypeError"
+    else
+      let nreq := r.params.length - r.defaults.length
+      if args.length < nreq then .err "TypeError"
+      else
+        let given := args ++ ((r.defaults.drop (args.length - nreq)).map fun d => Obj.sc (.atom d))
+        let env := r.params.zip given
+        let passed := r.passes.map fun p =>
+          match env.find? (·.1 == p) with
+          | some (_, v) => v
+          | none => Obj.sc (.atom p)                -- a literal in the source, already on the wire format
+        match r.hook with
+        | "_compose_unop" => applyUn r.sel fuel a
+        | "_compose_binop" =>
+          (match passed with
+           | [b] => composeBin (applyBin r.sel fuel) fuel r.sel true a b
+           | _ => .err "TypeError")
+        | "_rcompose_binop" =>
+          (match passed with
+           | [b] => composeBin (applyBin r.sel fuel) fuel r.sel false a b
+           | _ => .err "TypeError")
+        | "_compose_narop" => applyNar r.sel fuel a passed
+        | _ => .err "AttributeError"
+
+/-- `bi.name(args…)`: the `@scbuiltin.unop/binop/narop` wrapper. -/
+def pyBuiltin (kind : String) (name : String) (args : List Obj) : Obj :=
+  match kind, args with
+  | "unop", [a] => applyUn name fuel a
+  | "binop", [a, b] => applyBin name fuel a b
+  | "narop", a :: rest => applyNar name fuel a rest
+  | _, _ => .err "TypeError"
+
+end Sc3Verif.C15.Lift
